@@ -53,6 +53,7 @@ type query struct {
 }
 
 type netCase struct {
+	flat  []geom.Point // impl side: the buffer whose windows were passed to AddLink
 	fam   string
 	exact bool
 	opt   string // D | T
@@ -151,7 +152,35 @@ func parseCase(line string) (*netCase, []op) {
 			panic("bad op")
 		}
 	}
+	// The library gets every link as a window of ONE flat buffer with spare capacity behind it
+	// (an append or an in-place edit by the callee would clobber the next link); c.links keeps
+	// pristine copies for comparisons.
+	total := 0
+	for _, l := range c.links {
+		total += len(l.pts)
+	}
+	buf := make([]geom.Point, 0, total+8)
+	for i := range ops {
+		if ops[i].isLink {
+			off := len(buf)
+			buf = append(buf, ops[i].l.pts...)
+			ops[i].l.pts = buf[off:len(buf)]
+		}
+	}
+	c.flat = buf
 	return c, ops
+}
+
+// inputIntact reports whether the flat buffer handed to AddLink still holds the original bits.
+func (c *netCase) inputIntact() bool {
+	i := 0
+	for _, l := range c.links {
+		if !samePts(l.pts, c.flat[i:i+len(l.pts)]) {
+			return false
+		}
+		i += len(l.pts)
+	}
+	return true
 }
 
 // ---------------------------------------------------------------- generator
@@ -524,6 +553,107 @@ func genHistory(r *vproto.Rng) *netCase {
 	return b.c
 }
 
+// transform maps every coordinate of the case p -> (p + (ox, oy)) * f (f a power of two, offsets integers:
+// exact on the integer data of the X families as long as the magnitudes stay below 2^52).
+func (c *netCase) transform(ox, oy, f float64) {
+	t := func(p geom.Point) geom.Point { return pt((p.X+ox)*f, (p.Y+oy)*f) }
+	for i := range c.links {
+		q := make([]geom.Point, len(c.links[i].pts))
+		for j, p := range c.links[i].pts {
+			q[j] = t(p)
+		}
+		c.links[i].pts = q
+	}
+	for i := range c.qs {
+		c.qs[i].from, c.qs[i].to = t(c.qs[i].from), t(c.qs[i].to)
+	}
+}
+
+// rescale: the same shapes at coordinate scales 2^-30 .. 2^+30 (absolute thresholds in the code would show)
+func (c *netCase) rescale(r *vproto.Rng) {
+	c.transform(0, 0, math.Ldexp(1, r.Range(-30, 30)))
+	c.fam += "@s"
+}
+
+// coordinate-OFFSET family: a grid translated by a large false origin O (2^30, 1e9, 2^40, either sign,
+// possibly different per axis), node spacing d = ceil(2.5e-9*|O|) >= 3 so that neighbouring nodes stay
+// distinct under op.PointEquals (relative difference >= 1.25e-9 per axis), and pairs of query points
+// LESS than 1e-9 relative apart (so op.PointEquals calls them equal) that straddle the bisector between
+// two nodes and therefore snap to DIFFERENT nodes; then everything scaled by 2^k.
+func genOffset(r *vproto.Rng) *netCase {
+	b := newBuilder(r, "offset", true)
+	offs := []float64{math.Ldexp(1, 30), 1e9, math.Ldexp(1, 40), 3e9, math.Ldexp(1, 35)}
+	O := offs[r.Intn(len(offs))]
+	m := O * 1e-9
+	d := math.Ceil(2.5 * m)
+	if d < 3 {
+		d = 3
+	}
+	if r.Bool() {
+		d += math.Floor(m * r.Float()) // up to 3.5e-9 relative
+	}
+	e := math.Floor(0.3 * m)
+	a, z := math.Floor(d/2)-e, math.Ceil(d/2)+e // a < d/2 < z, z - a < 2e-9*O
+	if z == a {                                 // even d, e = 0
+		a, z = a-1, z+1
+	}
+	ox, oy := O, O
+	switch r.Intn(4) {
+	case 0:
+		ox = -O
+	case 1:
+		oy = -O
+	case 2:
+		oy = O * 2
+	}
+	w, h := r.Range(2, 6), r.Range(2, 5)
+	id := func(x, y int) int { return y*w + x }
+	for y := 0; y < h; y++ {
+		for x := 0; x < w; x++ {
+			b.node(pt(float64(x)*d, float64(y)*d))
+		}
+	}
+	spd := func() float64 {
+		if b.c.opt == "T" {
+			return pow2(r)
+		}
+		return 1
+	}
+	for y := 0; y < h; y++ {
+		for x := 0; x < w; x++ {
+			if x+1 < w && (y == 0 || !r.Chance(0.3)) { // row 0 complete: the network is connected along it
+				b.joinExact(id(x, y), id(x+1, y), 0, spd())
+			}
+			if y+1 < h && (x == 0 || !r.Chance(0.3)) {
+				b.joinExact(id(x, y), id(x, y+1), 0, spd())
+			}
+		}
+	}
+	b.shuffleLinks()
+	for k := 0; k < 5; k++ {
+		x, y := r.Intn(w-1), r.Intn(h)
+		p := b.nodes[id(x, y)]
+		switch r.Intn(3) {
+		case 0: // straddle the bisector between (x,y) and (x+1,y)
+			b.c.qs = append(b.c.qs, query{pt(p.X+a, p.Y), pt(p.X+z, p.Y), -1})
+		case 1: // the same, reversed, a little off the row
+			b.c.qs = append(b.c.qs, query{pt(p.X+z, p.Y+math.Floor(a/2)), pt(p.X+a, p.Y+math.Floor(a/2)), -1})
+		default: // diagonal neighbour
+			if y+1 < h {
+				b.c.qs = append(b.c.qs, query{pt(p.X+a, p.Y+a), pt(p.X+z, p.Y+z), -1})
+			} else {
+				b.c.qs = append(b.c.qs, query{pt(p.X+a, p.Y), pt(p.X+z, p.Y), -1})
+			}
+		}
+	}
+	b.queries(2, d)
+	b.c.transform(ox, oy, 1)
+	if r.Bool() {
+		b.c.transform(0, 0, math.Ldexp(1, r.Range(-20, 10)))
+	}
+	return b.c
+}
+
 type bigNet struct {
 	b   *builder
 	idx map[geom.Point]int
@@ -709,6 +839,9 @@ func gen(seed uint64, tier string) {
 	}
 	emit := func(c *netCase, p float64) {
 		c.addHistory(r, p)
+		if c.exact && r.Chance(0.3) {
+			c.rescale(r)
+		}
 		fmt.Fprintln(out, c)
 	}
 	for i := 0; i < n; i++ {
@@ -716,7 +849,8 @@ func gen(seed uint64, tier string) {
 		emit(genDiamond(r), 0.5)
 		emit(genFastSlow(r), 0.5)
 		emit(genFloat(r, false), 0.3)
-		fmt.Fprintln(out, genHistory(r))
+		emit(genHistory(r), 0)
+		fmt.Fprintln(out, genOffset(r))
 		if i%2 == 0 {
 			emit(genGrid(r, "components", r.Range(2, 3)), 0.6)
 			emit(genFloat(r, true), 0.3)
@@ -816,6 +950,8 @@ func implLine(line string) string {
 	var c *netCase
 	var net *route.Network
 	var res []string
+	var kept []geom.MultiLineString // every returned route, re-verified after the whole history
+	var keptAt []int
 	pan := vproto.Safe(func() {
 		var ops []op
 		c, ops = parseCase(line)
@@ -843,6 +979,20 @@ func implLine(line string) string {
 			}
 			fmt.Fprintf(&rb, " %s %s %s %s ;", vproto.F2H(d), vproto.F2H(t), vproto.F2H(sd), vproto.F2H(ed))
 			res = append(res, rb.String())
+			kept = append(kept, rt)
+			keptAt = append(keptAt, len(res)-1)
+		}
+		// late check: results must not alias state that later calls change, inputs must be untouched
+		intact := c.inputIntact()
+		for k, rt := range kept {
+			var rb strings.Builder
+			fmt.Fprintf(&rb, " ok %d", len(rt))
+			for _, ls := range rt {
+				fmt.Fprintf(&rb, " %d", linkIndex(c, ls))
+			}
+			if !intact || !strings.HasPrefix(res[keptAt[k]], rb.String()+" ") {
+				res[keptAt[k]] = " ok 1 -3 0000000000000000 0000000000000000 0000000000000000 0000000000000000 ;"
+			}
 		}
 		dumpGraph(c, net, &b)
 	})
